@@ -62,6 +62,15 @@ type Driver struct {
 	order     []byte // actor ids in the order steps started (interleaving fingerprint)
 	learned   int
 	validMemo map[string]error // string(vp.HashBytes()) -> vp.IsValid(networkID)
+	// voteproof IDs are attacker-chosen strings: which contents were submitted
+	// under one ID, and which IDs the box has emitted so far
+	idHashes   map[string]map[string]bool // vp.ID() -> string(vp.HashBytes()) of the embedded voteproofs submitted with it
+	emittedIDs map[string]emittedID       // vp.ID() -> the first voteproof emitted with it
+}
+
+type emittedID struct {
+	hash  string
+	point base.StagePoint
 }
 
 type DriverOpts struct {
@@ -72,13 +81,15 @@ type DriverOpts struct {
 
 func NewDriver(w *World, o DriverOpts) *Driver {
 	d := &Driver{
-		W:         w,
-		submitted: map[string]*SFInfo{},
-		points:    map[string]int{},
-		embedded:  map[string]string{},
-		accepted:  map[string]map[string]*SFInfo{},
-		touched:   map[string]base.StagePoint{},
-		ops:       map[string]int{},
+		W:          w,
+		submitted:  map[string]*SFInfo{},
+		points:     map[string]int{},
+		embedded:   map[string]string{},
+		accepted:   map[string]map[string]*SFInfo{},
+		touched:    map[string]base.StagePoint{},
+		ops:        map[string]int{},
+		idHashes:   map[string]map[string]bool{},
+		emittedIDs: map[string]emittedID{},
 	}
 	th := w.Threshold
 	box := isaacstates.NewBallotbox(w.Local, func() base.Threshold { return th }, w.GetSuffrage)
@@ -145,7 +156,30 @@ func (d *Driver) register(st *Step, actor int) {
 	case st.Ballot != nil:
 		sf = st.Ballot.SignFact()
 		if vp := st.Ballot.Voteproof(); vp != nil {
-			d.embedded[string(vp.HashBytes())] = st.Desc
+			hk := string(vp.HashBytes())
+			d.embedded[hk] = st.Desc
+			d.ops["embedded_voteproofs_submitted"]++
+			m := d.idHashes[vp.ID()]
+			if m == nil {
+				m = map[string]bool{}
+				d.idHashes[vp.ID()] = m
+			}
+			if !m[hk] {
+				m[hk] = true
+				if len(m) > 1 {
+					d.ops["distinct_embedded_voteproofs_sharing_an_id_with_other_content"]++
+				}
+			}
+			// the ID of a voteproof the box already emitted, other content
+			if e, ok := d.emittedIDs[vp.ID()]; ok && e.hash != hk {
+				if e.point.Equal(vp.Point()) {
+					d.ops["embedded_voteproof_with_id_of_already_emitted_voteproof:same_stage_point"]++
+				} else {
+					d.ops["embedded_voteproof_with_id_of_already_emitted_voteproof:other_stage_point"]++
+				}
+			} else if len(m) > 1 && !ok {
+				d.ops["embedded_voteproof_with_shared_id_before_any_emission_of_that_id"]++
+			}
 		}
 	case st.SignFact != nil:
 		sf = st.SignFact
@@ -215,6 +249,23 @@ func (d *Driver) Do(actor int, st *Step) StepResult {
 		panic("unknown step " + st.Op)
 	}
 	return res
+}
+
+// NoteEmitted remembers the ID of a voteproof that left the box.
+func (d *Driver) NoteEmitted(vp base.Voteproof) {
+	d.mu.Lock()
+	defer d.mu.Unlock()
+	if _, ok := d.emittedIDs[vp.ID()]; !ok {
+		d.emittedIDs[vp.ID()] = emittedID{hash: string(vp.HashBytes()), point: vp.Point()}
+	}
+}
+
+// IDShared tells whether embedded voteproofs of different content were
+// submitted under vp's ID.
+func (d *Driver) IDShared(vp base.Voteproof) bool {
+	d.mu.Lock()
+	defer d.mu.Unlock()
+	return len(d.idHashes[vp.ID()]) > 1
 }
 
 // cachedIsValid is vp.IsValid(networkID), computed once per distinct voteproof
